@@ -433,6 +433,28 @@ def class_family(run):
     return out
 
 
+class Hang(Exception):
+    pass
+
+
+import contextlib  # noqa: E402
+import signal  # noqa: E402
+
+
+@contextlib.contextmanager
+def watchdog(seconds, what):
+    """the implementation must answer: a call that does not return within [seconds] is reported"""
+    def handler(signum, frame):
+        raise Hang(f"no answer within {seconds} s: {what}")
+    old = signal.signal(signal.SIGALRM, handler)
+    signal.alarm(seconds)
+    try:
+        yield
+    finally:
+        signal.alarm(0)
+        signal.signal(signal.SIGALRM, old)
+
+
 def gen_modules(run, rnd):
     mods = []
     names = ["f", "h"]
@@ -517,7 +539,7 @@ def check_modules(run, mods, wd, rnd, cov):
             body_terms = [T.s_of(c) for c in root.body]
         except T.Unsupported:
             continue
-        with common.quiet():
+        with common.quiet(), watchdog(20, f"parsing.safe_callable_names / delete_pointless_statements on {src!r}"):
             real = set(parsing.safe_callable_names(root)) - SAFE
             deleted = {id(n) for n, _ in fixes.delete_pointless_statements._fix_func(src)}
         real_flags = [id(c) in deleted for c in core.parse(src).body]
@@ -994,6 +1016,9 @@ def model_draws(t, lpy) -> int:
 
 
 HO = ["map", "filter", "sorted", "min", "max", "iter", "__build_class__"]
+# whitelisted builtins that run an iterator they are handed (F16-15 / F01-51)
+CONSUMERS = ["list", "tuple", "set", "frozenset", "dict", "sorted", "sum", "min", "max", "any", "all", "bytes",
+             "bytearray", "enumerate", "zip", "reversed", "len", "str", "repr"]
 
 
 def check_semantics(run, mods, wd, rnd, cov):
@@ -1087,6 +1112,8 @@ def call_sigs(node) -> set:
             if isinstance(f, ast.Name) and f.id in HO and any(
                     isinstance(a, ast.Name) for a in list(n.args) + [k.value for k in n.keywords]):
                 sigs.add("higher_order_builtin")
+            if isinstance(f, ast.Name) and f.id in CONSUMERS and any(isinstance(a, ast.Name) for a in n.args):
+                sigs.add("drains_lazy_iterator")
     return sigs
 
 
@@ -1251,6 +1278,8 @@ FINDING_WITNESSES = {
                        "from m import f\nclass A:\n    def f(self):\n        return 1\nf()\n",
                        "class A(Base):\n    pass\nA()\n", "@deco\ndef f():\n    return 1\nf()\n"],
     "higher_order_builtin": ["list(map(print, xs))\n", "sorted(xs, key=print)\n"],
+    "drains_lazy_iterator": ["m = map(lambda x: print('lazy', x), xs)\nlist(m)\n",
+                             "g = (print(x) for x in xs)\nsum(g)\n"],
 }
 
 
